@@ -39,7 +39,7 @@ func c15(tier string) []*explore.Scenario {
 		pick(c16(tier), "unary+stream", "2streams/preattach=false"),
 		pick(c17(tier), "bad-peer/failing-writer", "bad-peer/slow-dial", "reattach/before", "shutdown/after=2"),
 		pick(c18(tier), "delivery/keys=2/per=2/late=false", "cancel/after=0/concurrent=true", "stop/after=1"),
-		pick(c19(tier), "http/duplex", "http/idle-timeout/pending=both", "channel/cap=1"),
+		pick(c19(tier), "http/duplex", "http/idle-timeout/pending=both", "channel/cap=1", "tick-vs-registration", "source-mapper"),
 		pick(c20(tier), "stats/handlers=2/d=1", "chain-overlap/n=2"),
 		pick(c04(tier), "header-race"),
 		pick(c14(tier), "batch/k=16/rounds=2/d=0"),
